@@ -247,7 +247,7 @@ def flip(b, rnd):
     return b[:i] + bytes([b[i] ^ (1 << rnd.randrange(8))]) + b[i + 1:]
 
 
-CORR = ['none', 'none', 'none', 'sigbit', 'amount', 'output', 'sequence', 'locktime', 'drop_wit', 'extra_wit', 'empty_wit', 'proghash', 'control', 'wrong_key', 'scriptsig_junk', 'witscript_bit', 'wit_shape']
+CORR = ['none', 'none', 'none', 'sigbit', 'amount', 'output', 'sequence', 'locktime', 'drop_wit', 'extra_wit', 'empty_wit', 'proghash', 'control', 'wrong_key', 'scriptsig_junk', 'witscript_bit', 'wit_shape', 'tiny_scriptsig', 'spk_shape']
 
 
 def fix_txid(c):
@@ -316,6 +316,27 @@ def corrupt(c, kind, rnd):
         vin['script'] = b'\x51'
     elif kind == 'witscript_bit' and typ in ('p2wsh', 'p2wsh-script', 'p2sh-p2wsh'):
         vin['wit'][-1] = flip(vin['wit'][-1], rnd)
+    elif kind == 'tiny_scriptsig' and not vin['wit'] and typ in ('p2pk', 'p2pkh', 'multisig', 'p2sh-multisig', 'p2sh-script'):
+        # a very short scriptSig in front of a long scriptPubKey / redeem script (the script storage switches from inline to heap)
+        vin['script'] = rnd.choice([b'\x00', b'\x51', b'\x00\x00', b''])
+        if typ.startswith('p2sh'):
+            ops = R.decode(c.get('_orig_script', b'')) if False else None
+    elif kind == 'spk_shape':
+        # structurally odd scriptPubKey in the funding transaction: wrong push lengths inside P2SH / witness-program shapes
+        spk = bytearray(fund.vout[c['pos']]['spk'])
+        if len(spk) >= 3:
+            which = rnd.randrange(4)
+            if which == 0:
+                spk[1] = rnd.choice([0, 1, 19, 21, 31, 33, 75])          # push length byte
+                spk = spk[:2] + spk[2:2 + spk[1]] + (spk[-1:] if spk[0] == 0xa9 else b'')
+            elif which == 1:
+                spk = spk[:len(spk) // 2]
+            elif which == 2:
+                spk = spk + b'\x00'
+            else:
+                spk[0] = rnd.choice([0x00, 0x51, 0x52, 0x60, 0xa9, 0x4f])
+        fund.vout[c['pos']]['spk'] = bytes(spk)
+        fix_txid(c)
     elif kind == 'wit_shape' and vin['wit']:
         # unusual witness stack shapes: a lone annex-tagged item, only empty items, annex-tagged items in every position, a single huge item ...
         shape = rnd.randrange(8)
